@@ -254,8 +254,9 @@ def c16(rec, tier):
     f9_casts.run_vm_sizes(rec, F)
     f4_vm.hook_exit(rec, F)
     f4_gc.growth_progress(rec, F)
-    # sentinel tests () guard host panics
+    # sentinel tests (x == VALUE_UNDEFINED) guard host panics
     f10_parity.run_number_equality(rec, F, "unboxed")
+    f4_sched.queue_once(rec, F)
 
 
 def c17(rec, tier):
